@@ -5,7 +5,9 @@
   are about.
 -/
 import Gen.Src
+import Gen.SrcC04
 import CRModel.Occupancy
+import CRModel.TrafficLightHist
 namespace CR.TL
 
 theorem tie_init_steps (es : List Elem) (off : Int) :
@@ -44,3 +46,84 @@ theorem tie_traj_state_at (t0 : Int) (n : Nat) (t : Int) :
   by_cases h1 : t0 ≤ t <;> by_cases h2 : t < t0 + n <;> simp [h1, h2, Id.run, pure]
 
 end CR.Occ
+
+/-! ## second part: the cycle OBJECT with its memoised table (translated by harness/translate/src_c04.py, module Gen.SrcC04) -/
+namespace CR.TL.Hist
+
+theorem tie_invalidate (o : Obj) : Gen.TrafficLightCycle_invalidate o = { o with table := none } := by
+  unfold Gen.TrafficLightCycle_invalidate
+  obtain ⟨es, cls, off, tb⟩ := o
+  cases tb <;> simp [Id.run, pure]
+
+/-- the `time_offset` setter of the current source stores the offset AND drops the memoised table (`Op.setOff`) -/
+theorem tie_set_time_offset (v : Bool) (o : Obj) (off : Int) :
+    Gen.TrafficLightCycle_set_time_offset o off = (stepWith v o (.setOff off)).2 := by
+  unfold Gen.TrafficLightCycle_set_time_offset
+  simp [Id.run, pure, tie_invalidate, stepWith]
+
+/-- the `cycle_elements` setter of the current source stores the list AND drops the memoised table (`Op.setEs`) -/
+theorem tie_set_cycle_elements (v : Bool) (o : Obj) (es : List Elem) (cls : List Nat) :
+    Gen.TrafficLightCycle_set_cycle_elements o (es, cls) = (stepWith v o (.setEs es cls)).2 := by
+  unfold Gen.TrafficLightCycle_set_cycle_elements
+  simp [Id.run, pure, tie_invalidate, stepWith]
+
+open CR.PyC04 in
+theorem diffs_cons_inj : ∀ (l l' : List Int) (a : Int), diffs (a :: l) = diffs (a :: l') → l = l'
+  | [], [], _, _ => rfl
+  | [], b :: l', a, h => by simp [diffs] at h
+  | b :: l, [], a, h => by simp [diffs] at h
+  | b :: l, b' :: l', a, h => by
+    simp only [diffs, List.cons.injEq] at h
+    obtain ⟨h1, h2⟩ := h
+    have hb : b = b' := by omega
+    subst hb
+    rw [diffs_cons_inj l l' b h2]
+
+open CR.PyC04 in
+theorem diffs_cumsum (off : Int) : ∀ (ds : List Int) (acc : Int),
+    diffs ((acc + off) :: (cumsumFrom acc ds).map (· + off)) = ds
+  | [], _ => rfl
+  | d :: ds, acc => by
+    simp only [cumsumFrom, List.map_cons, diffs]
+    rw [diffs_cumsum off ds (acc + d)]
+    congr 1; omega
+
+open CR.PyC04 in
+theorem diffs_initSteps (es : List Elem) (off : Int) : diffs (initSteps es off) = durations es := by
+  have h := diffs_cumsum off (durations es) 0
+  simpa [initSteps, cumsum] using h
+
+/-- The memoised property `cycle_init_timesteps` of the CURRENT source as a whole (hasattr test, comparison of the table's
+    differences with the current durations, re-derivation, memo update): on an object whose memo — if any — starts at the
+    current offset (`OffCoherent`, kept by every operation: C17_offCoherent_run) it returns the table of the current elements
+    and offset and leaves exactly that table memoised: the model's `fillWith true`, i.e. `validates = true`. -/
+theorem tie_cycle_init_timesteps_memo (o : Obj) (h : OffCoherent o) :
+    Gen.TrafficLightCycle_cycle_init_timesteps_memo o = (fillWith true o, { o with table := some (fillWith true o) }) := by
+  unfold Gen.TrafficLightCycle_cycle_init_timesteps_memo fillWith
+  obtain ⟨es, cls, off, tb⟩ := o
+  cases tb with
+  | none => simp [Id.run, pure, CR.Py.cumsumPlus, CR.Py.insert0, initSteps, durations]
+  | some tb =>
+    by_cases hd : CR.PyC04.diffs tb = es.map (fun e => e.2)
+    · have hh := h tb rfl
+      cases tb with
+      | nil => simp at hh
+      | cons a l =>
+        simp only [List.head?_cons, Option.some.injEq] at hh
+        subst hh
+        have hl : l = (cumsum (durations es)).map (· + a) := by
+          apply diffs_cons_inj _ _ a
+          rw [hd]
+          exact (diffs_initSteps es a).symm
+        subst hl
+        simp [Id.run, pure, hd, initSteps]
+    · simp [Id.run, pure, hd, CR.Py.cumsumPlus, CR.Py.insert0, initSteps, durations]
+
+/-- the query path of the model (`stepWith true o (.query ts)` reads `fillWith true o` and leaves it memoised) is therefore
+    what the translated getter does on every object a history can produce -/
+theorem tie_memo_is_query_table (o : Obj) (h : OffCoherent o) (t : Int) :
+    (stepWith true o (.query [t])).2 = (Gen.TrafficLightCycle_cycle_init_timesteps_memo o).2 := by
+  rw [tie_cycle_init_timesteps_memo o h]
+  simp [stepWith]
+
+end CR.TL.Hist
